@@ -288,7 +288,31 @@ func main() {
 				add("m/lib.min.js", jsmod())
 				add("m/data.v2.json", fentry{kind: "json", valid: true, v: 4})
 				add("m/lib.min", jsmod())
-				if r.Chance(50) {
+				// the directory a "main" may name can be a package of its own: its package.json plays no part in resolving the outer main
+				if r.Chance(35) {
+					files[b+"/m/lib/alt.js"] = jsmod()
+					ip := b + "/m/lib/package.json"
+					if r.Chance(75) {
+						files[ip], pkgText[ip] = fentry{kind: "pkg", main: "alt.js"}, `{"main": "alt.js"}`
+					} else {
+						files[ip], pkgText[ip] = fentry{kind: "pkg", main: "gone.js"}, `{"main": "gone.js"}`
+					}
+				}
+				innerPkg := false
+				if _, has := files[b+"/m/lib/package.json"]; has && r.Chance(60) {
+					// make the outer main reach that directory: no file candidate in front of it
+					delete(files, b+"/m/lib")
+					delete(files, b+"/m/lib.js")
+					delete(files, b+"/m/lib.json")
+					if r.Chance(70) {
+						files[b+"/m/lib/index.js"] = jsmod()
+					}
+					mn := r.Pick([]string{"lib", "./lib", "lib/"})
+					pp := b + "/m/package.json"
+					files[pp], pkgText[pp] = fentry{kind: "pkg", main: mn}, fmt.Sprintf(`{"main": %s}`, jsq(mn))
+					innerPkg = true
+				}
+				if !innerPkg && r.Chance(50) {
 					p := b + "/m/package.json"
 					switch r.Intn(7) {
 					case 0:
